@@ -103,6 +103,21 @@ def run(ctx):
         for sname in ("input_scale", "output_scale"):
             if getattr(qm, sname).grad is not None or getattr(qm, sname).requires_grad:
                 ctx.spec_failures.append(("C11:scale-receives-gradient", dict(cfg, scale=sname)))
+        # ---- weight not trainable (requires_grad False): bias and input still get their gradients
+        if qm.bias is not None and rng.random() < 0.5:
+            qm.weight.requires_grad_(False)
+            qm.bias.grad = None
+            x4 = x.detach().clone().requires_grad_(True)
+            try:
+                o4 = qm(x4)
+                o4 = o4.dequantize() if isinstance(o4, QTensor) else o4
+                o4.backward(gO)
+                if not close(qm.bias.grad, br.grad, dt, exact) or not close(x4.grad, xr.grad, dt, exact):
+                    ctx.spec_failures.append((f"C11:gradient-differs:weight-not-trainable:{kind}", dict(cfg, bias_none=qm.bias.grad is None, input_none=x4.grad is None)))
+            except Exception as e:  # noqa
+                ctx.spec_failures.append((f"C11:backward-raises:{kind}:{exc_name(e)}", dict(cfg, message=str(e)[:200])))
+            qm.weight.requires_grad_(True)
+            ctx.evaluations += 1
         # ---- freshness: an optimizer step is seen by the next forward
         with torch.no_grad():
             qm.weight -= 0.25 * (qm.weight.grad if qm.weight.grad is not None else torch.zeros_like(qm.weight))
@@ -129,6 +144,24 @@ def run(ctx):
                     ctx.spec_failures.append(("C11:frozen-weight-receives-gradient", dict(cfg, requires_grad=qm.weight.requires_grad, has_grad=qm.weight.grad is not None)))
                 if x2.grad is None:
                     ctx.spec_failures.append(("C11:no-input-gradient-through-frozen-module", dict(cfg)))
+                # bias and input gradients of the frozen module still equal those of the float module
+                with torch.no_grad():
+                    wd = qm.weight.dequantize().detach()
+                    xq2 = q.quantize_activation(x.detach(), q.qtypes[aq], qm.input_scale).dequantize() if aq is not None else x.detach().clone()
+                xr2 = xq2.clone().requires_grad_(True)
+                br2 = qm.bias.detach().clone().requires_grad_(True) if qm.bias is not None else None
+                ro = torch.nn.functional.linear(xr2, wd, br2) if kind == "linear" else qm._conv_forward(xr2, wd, br2)
+                ro.backward(torch.ones_like(ro))
+                if qm.bias is not None:
+                    qm.bias.grad = None
+                    x3 = x.detach().clone().requires_grad_(True)
+                    o3 = qm(x3)
+                    o3 = o3.dequantize() if isinstance(o3, QTensor) else o3
+                    o3.backward(torch.ones_like(o3))
+                    if not close(qm.bias.grad, br2.grad, dt, exact):
+                        ctx.spec_failures.append((f"C11:gradient-differs:bias:{kind}:frozen", dict(cfg, got_none=qm.bias.grad is None)))
+                    if not close(x3.grad, xr2.grad, dt, exact):
+                        ctx.spec_failures.append((f"C11:gradient-differs:input:{kind}:frozen", dict(cfg)))
             except Exception as e:  # noqa
                 ctx.spec_failures.append((f"C11:frozen-backward-raises:{exc_name(e)}", dict(cfg, message=str(e)[:200])))
             ctx.evaluations += 1
